@@ -365,6 +365,17 @@ class World(object):
                 res = self.op_api(op, rng)
             else:
                 raise ValueError("unknown op %r" % name)
+        elif name in ("preempt", "abort", "abort_sweep", "virgin"):
+            # P6 also across interrupted / interleaved calls: whatever the callers did to interpreter-global
+            # settings must be undone by the time all of them have returned
+            before = ambient_snapshot()
+            res = handler(op, rng)
+            after = ambient_snapshot()
+            if before != after and not self.stop:
+                changed = [a[0] for a, b in zip(before, after) if a != b]
+                self.violate("P6-ambient-interpreter-state-changed", name, ",".join(changed),
+                             {"before": [a for a, b in zip(before, after) if a != b], "after": [b for a, b in zip(before, after) if a != b]},
+                             "preempt" if name in ("preempt", "virgin") else "abort")
         else:
             res = handler(op, rng)
         self.ops.append(op)
